@@ -2,6 +2,7 @@ package rules
 
 import (
 	"fmt"
+	"go/types"
 	"regexp"
 	"sort"
 	"strings"
@@ -126,14 +127,14 @@ func V2(rc *RC, floor int) {
 			for k := i - 1; k >= 0; k-- {
 				p := nodes[k]
 				if (p.Kind == "let" || p.Kind == "store") && p.Target == d && strings.HasPrefix(p.Value, "recycledDense(") {
-					a := splitArgs(p.Value[len("recycledDense(") : strings.LastIndex(p.Value, ")")])
+					a := splitArgs(p.Value[len("recycledDense("):strings.LastIndex(p.Value, ")")])
 					if len(a) >= 2 && strings.HasPrefix(a[1], "tensor.Shape{") {
 						size = strings.TrimSuffix(strings.TrimPrefix(a[1], "tensor.Shape{"), "}")
 					}
 					break
 				}
 				if strings.HasPrefix(p.Head, d+".makeArray(") {
-					size = p.Head[len(d+".makeArray(") : strings.LastIndex(p.Head, ")")]
+					size = p.Head[len(d+".makeArray("):strings.LastIndex(p.Head, ")")]
 					break
 				}
 			}
@@ -227,12 +228,20 @@ func O9(rc *RC, floor int) {
 				lin = append(lin, st)
 			}
 			for _, st := range lin {
+				// a variable that is assigned again names another object from here on
+				forget := func(target string) {
+					for k := range count {
+						if strings.HasSuffix(k, "|"+target) {
+							delete(count, k)
+						}
+					}
+				}
 				switch st.Kind {
 				case "let", "store":
-					delete(count, st.Target)
+					forget(st.Target)
 				case "tuple":
 					for _, t := range st.Targets {
-						delete(count, t)
+						forget(t)
 					}
 				}
 				if st.Kind == "loop" || st.Kind == "range" || st.Kind == "switch" {
@@ -265,6 +274,133 @@ func O9(rc *RC, floor int) {
 			rc.S.Viol("O9", fi.Key, pos, strings.Join(b, "; ")).Sig = fmt.Sprintf("%d double release(s)", len(b))
 		} else {
 			rc.S.Ok("O9", fi.Key, pos, fmt.Sprintf("%d release site(s), each object released at most once per path", len(sites)))
+		}
+	}
+}
+
+// O11: release-then-read. ReturnInts zeroes the slice it is handed before pooling it. A function
+// that releases a slice owned by one of its objects (`ReturnInts(x.shape)`) and afterwards reads
+// an []int parameter reads zeros whenever the caller passed that very slice
+// (`t.Reshape(t.Shape()...)`, finding 73): on every path, every read of a slice parameter
+// precedes the first release of a slice the function did not receive as that parameter.
+func O11(rc *RC, floor int) {
+	rc.S.Declare("O11", "release-then-read: on every path no []int parameter is read after a ReturnInts of a slice owned by one of the function's objects (the parameter may alias the released slice, which ReturnInts zeroes)", floor)
+	for _, fi := range rc.P.SortedFuncs() {
+		if fi.Pkg != rc.P.Root || fi.Decl.Body == nil || strings.HasSuffix(fi.File, "_test.go") || fi.Obj == nil {
+			continue
+		}
+		var params []string
+		sig := fi.Obj.Type().(*types.Signature)
+		for i := 0; i < sig.Params().Len(); i++ {
+			p := sig.Params().At(i)
+			if isMetaSlice(p.Type()) && p.Name() != "" && p.Name() != "_" {
+				params = append(params, "$"+p.Name())
+			}
+		}
+		if len(params) == 0 {
+			continue
+		}
+		_, tree := sCanon(rc, fi)
+		if !strings.Contains(stripFuncLits(ir.Render(tree)), "ReturnInts(") {
+			continue
+		}
+		pos := rc.P.Pos(fi.Decl.Pos())
+		paths, ok := ir.EnumPaths(tree, 4000)
+		if !ok {
+			rc.S.Undec("O11", fi.Key, pos, "too many paths")
+			continue
+		}
+		bad := ""
+		for _, p := range paths {
+			released := ""
+			for _, st := range p.Steps {
+				h := stripFuncLits(st.Head)
+				if released != "" {
+					for _, prm := range params {
+						if ir.HasWord(h, prm) {
+							bad = fmt.Sprintf("on [%s] %s is read by `%s` after `%s`: if the caller passed the released slice itself, it has been zeroed", strings.Join(p.Guards, " && "), prm, clip(h, 80), released)
+						}
+					}
+				}
+				if i := strings.Index(h, "ReturnInts("); i >= 0 && released == "" {
+					arg := h[i+len("ReturnInts("):]
+					if j := strings.Index(arg, ")"); j >= 0 {
+						arg = arg[:j]
+					}
+					isParam := false
+					for _, prm := range params {
+						if arg == prm {
+							isParam = true
+						}
+					}
+					if !isParam && (strings.HasPrefix(arg, "$") || strings.Contains(arg, ".")) {
+						released = clip(h, 60)
+					}
+				}
+			}
+			if bad != "" {
+				break
+			}
+		}
+		if bad != "" {
+			rc.S.Viol("O11", fi.Key, pos, bad).Sig = "read after release"
+		} else {
+			rc.S.Ok("O11", fi.Key, pos, fmt.Sprintf("%d paths: parameters %v are read before any release", len(paths), params))
+		}
+	}
+}
+
+// AL: append aliasing. `a = append(b, xs...)` may write into b's backing array and return a
+// slice over it. That is harmless until b is emptied and refilled (`b = b[:0]` … `append(b, …)`)
+// while a is still read: the refill overwrites a's elements (finding 68: TensorMul built the
+// first operand's permutation that way and then reused the scratch slice for the second).
+var alAppend = regexp.MustCompile(`^(%\w+) = append\((%\w+), `)
+
+func AL(rc *RC, floor int) {
+	rc.S.Declare("AL", "append aliasing: a slice built as append(b, …) of another local b is not read after b has been emptied (b = b[:0]) and appended to again", floor)
+	for _, fi := range rc.P.AnalysisFuncs() {
+		if fi.Pkg != rc.P.Root || fi.Decl.Body == nil || strings.HasSuffix(fi.File, "_test.go") || lcGenerated[fi.File] {
+			continue
+		}
+		c := ir.NewCanon(rc.P.Fset, fi.Pkg.TypesInfo, ir.Options{ParamNames: true, KeepNames: true, NoSubst: true})
+		nodes := flatten(c.Func(fi.Decl))
+		n := 0
+		for i, nd := range nodes {
+			if nd.Kind != "let" {
+				continue
+			}
+			m := alAppend.FindStringSubmatch(stripFuncLits(nd.Head))
+			if m == nil || m[1] == m[2] {
+				continue
+			}
+			a, b := m[1], m[2]
+			n++
+			key := fmt.Sprintf("%s#append%d", fi.Key, n)
+			pos := rc.P.Pos(nd.Pos)
+			emptied, refilled, bad := false, false, ""
+			for _, later := range nodes[i+1:] {
+				h := stripFuncLits(later.Head)
+				if later.Kind == "let" && later.Target == a && !strings.Contains(later.Value, a) {
+					break // a is rebuilt: the alias is gone
+				}
+				if later.Kind == "let" && later.Target == b && later.Value == b+"[:0]" {
+					emptied = true
+					continue
+				}
+				if emptied && strings.Contains(h, "append("+b+",") {
+					refilled = true
+					continue
+				}
+				if refilled && ir.HasWord(h, a) {
+					bad = fmt.Sprintf("%s = append(%s, …) shares %s's backing array; %s is emptied and appended to again, and %s is still read by `%s`: its elements have been overwritten", a, b, b, b, a, clip(h, 80))
+					break
+				}
+			}
+			if bad != "" {
+				rc.S.Viol("AL", key, pos, bad).Sig = "stale alias"
+			} else {
+				rc.S.Ok("AL", key, pos, a+" is not read after "+b+" is refilled")
+			}
 		}
 	}
 }
